@@ -12,6 +12,9 @@
 // a break opportunity by text / another box, at the widths where the box fits
 // entirely and what is glued to it does not (gluedWidths): the line has to be
 // re-broken inside a box that was already placed (breakWaitingChildren).
+// Document-level dimension `multi-pass:<mode>` (see multiPassModes): 3 documents in 10 put
+// their blocks where the engine lays the same box tree out more than once (remade page,
+// multi-column, flex, break-inside: avoid blocks moved to the next page).
 //
 // THE PROJECTION (this is the tie): the item list given to the model is read
 // from /repo's own box tree BEFORE layout (layout.VerifBoxTree = the
@@ -146,8 +149,8 @@ type block struct {
 // block out: the result must be the one of the model (a function of cfg + items) also when the
 // SAME box tree is laid out again from the start.  Modes ("" = plain block flow on one tall page,
 // every paragraph laid out exactly once):
-//   page-remake     a page-margin box shows counter(page) "/" counter(pages): every page is made
-//                   twice (the page-based counters are only known after the first pass), the whole
+//   page-remake     an in-flow box shows counter(page) "/" counter(pages): every page is made
+//                   twice (the number of pages is only known after the first pass), the whole
 //                   document is laid out a second time from the same box tree;
 //   columns         the blocks are the content of a multi-column container (column-count 1 or 2,
 //                   break-inside: avoid paragraphs): column balancing lays the content out
@@ -172,7 +175,10 @@ func document(blocks []block, o docOpt) string {
 	page, pextra, open, closing := "size:30000px 400000px;margin:0", "", "", ""
 	switch o.mode {
 	case "page-remake":
-		page = `size:30000px 400000px;margin:13px 0 31px 17px;@bottom-center{content:counter(page) "/" counter(pages);font:10px Ahem}`
+		// (a page-margin box would not do: margin boxes are made after pagination; it is an
+		// in-flow box whose content depends on counter(pages) that has the page remade)
+		page = `size:30000px 400000px;margin:13px 0 31px 17px`
+		open = `<style>div.pc::before{content:counter(page) "/" counter(pages)}</style><div class="pc" style="font:10px/12px Ahem"></div>`
 	case "columns":
 		open, closing = fmt.Sprintf(`<div style="column-count:%d;column-gap:11px">`, o.cols), "</div>"
 		pextra = ";break-inside:avoid"
@@ -1769,6 +1775,7 @@ func (rn *runner) runSplit(r *vlib.Rng, engine string) {
 }
 
 // a corpus file holds one paragraph: {"para": …, "widths": […], "engine": "pango"|"gotext"}
+// and optionally "multi_pass": a mode of multiPassModes (+ "cols" for columns)
 func (rn *runner) runCorpus(path string) {
 	b, err := os.ReadFile(path)
 	if err != nil {
@@ -1802,6 +1809,9 @@ func (rn *runner) runCorpus(path string) {
 	for _, w := range c.Widths {
 		bs = append(bs, block{c.Para, w})
 		its = append(its, all[0])
+	}
+	if o.mode == "avoid-next-page" {
+		o.pageH = rn.pageHeight(bs, c.Engine, vlib.NewRng(uint64(len(bs))))
 	}
 	rn.runBlocks(bs, its, c.Engine, "corpus", o)
 }
